@@ -75,6 +75,7 @@ type Runner struct {
 	lateCopyDue    int64
 	slowAckFrom    string // its answers to AppendEntries / heartbeats take slowAckMs longer (removeverify macro)
 	slowAckMs      int
+	healEpoch      atomic.Int64 // incremented whenever links are restored: claims about 'a server that stays cut off' end there
 	dropAppendAcks bool // acknowledgements of AppendEntries that carry entries are lost (inheritedtail macro)
 	aeBudget       map[string]int // per sender: that many AppendEntries carrying entries get through to each receiver, the rest are lost; absent = no limit (figure8 macro)
 	aeUsed         map[string]int // "from>to" -> requests let through so far
